@@ -91,6 +91,7 @@ class Scheduler:
         self.trace_hook = None    # callable(kind) for state fingerprints
         self.late_total = 0.0
         self.deadlock = None
+        self.divergence = None
         self.livelock = None
         main = VThread(name='MainThread')
         main.id = 0
@@ -181,9 +182,26 @@ class Scheduler:
             pick = en[0]
         else:
             pre = bool(en and en[0] is me and self._is_enabled(me))
-            pick = en[self.chooser.choose('sched', len(en), pre)]
+            pick = en[self._choose('sched', len(en), pre)]
         if pick is not me:
             self._switch(me, pick)
+
+    def _choose(self, kind, n, pre):
+        """A recorded choice that does not fit the points of this execution
+        means the execution is not a function of program + schedule (e.g. an
+        order taken from a set of objects): reported through the driver."""
+        try:
+            return self.chooser.choose(kind, n, pre)
+        except ReplayDivergence as e:
+            me = self.current
+            if me is None or me._is_main or \
+                    me._os_ident != _rt.get_ident():
+                raise
+            self.divergence = str(e)
+            self.current = self.main
+            self.main._sem.release()
+            me._sem.acquire()
+            raise Abort()
 
     def _switch(self, me, pick):
         self.current = pick
@@ -192,6 +210,8 @@ class Scheduler:
             return
         me._sem.acquire()
         if me._is_main:
+            if self.divergence:
+                raise ReplayDivergence(self.divergence)
             if self.deadlock:
                 raise Deadlock(self.deadlock)
             if self.livelock:
@@ -211,7 +231,7 @@ class Scheduler:
         first = [t for t in timed if t.deadline == d]
         late = 0.0
         if not all(t.exact for t in first) and len(self.lateness_menu) > 1:
-            late = self.lateness_menu[self.chooser.choose(
+            late = self.lateness_menu[self._choose(
                 'late', len(self.lateness_menu), False)]
         self.late_total += late
         self.now = max(self.now, d + late)
@@ -237,7 +257,11 @@ class Scheduler:
         if len(en) == 1:
             pick = en[0]
         else:
-            pick = en[self.chooser.choose('sched', len(en), False)]
+            try:
+                pick = en[self.chooser.choose('sched', len(en), False)]
+            except ReplayDivergence as e:
+                self.divergence = str(e)
+                pick = self.main
         self.current = pick
         pick._sem.release()
 
